@@ -393,6 +393,17 @@ func randTxList(r *Rng, nNormal, nBlobTx int, maxBlobLen int, mixed bool, nss []
 				t = append([]byte{}, enc[:len(enc)-1]...)
 			}
 		}
+		if almostBlobOK && r.Intn(20) == 0 {
+			// an ORDINARY transaction that is a complete, well-formed blob transaction message with valid blobs -
+			// except that its type id is not exactly "BLOB" (a longer id with that prefix, another case, one
+			// letter off): only the exact id makes a blob transaction
+			b := randBlob(r, nss, 300)
+			enc := blobTxOf(r, []genBlob{b})
+			id := pick(r, []string{"BLOB/2", "BLOBX", "BLOB ", "blob", "BLOC", "BLO"})
+			if len(enc) > 6 && string(enc[len(enc)-4:]) == "BLOB" {
+				t = append(append([]byte{}, enc[:len(enc)-6]...), pbBytes(3, []byte(id))...)
+			}
+		}
 		if almostBlobOK && r.Intn(16) == 0 {
 			// an ORDINARY transaction shaped like a protobuf message with a bytes field 1, a bytes field 2 that
 			// is NOT a blob, and no (or another) type id - what an unsigned sdk transaction looks like: it parses
